@@ -12,7 +12,7 @@ func init() {
 	register("C15", propMeta{
 		Explanation: "Decides the key/table/batch mechanics of the RocksDB-backed raft log store: (R1) LogStore methods touch only the log column family, StableStore methods only the stable one; (R2) every log key written, read or deleted is the big-endian encoding of the index, First/LastIndex seek to first/last, decode with the inverse, derive their answer from the iterator on every call and return (0,nil) on an empty store; " +
 			"(R3) DeleteRange removes the half-open range [min, max+1) and performs the write on every non-error path (no input is silently ignored); (R4) StoreLogs puts every element and writes once, StoreLog stores the encoding of the entry under its own index; (R5) entries are encoded and decoded with the same handle, and a missing entry is raft.ErrLogNotFound decided by nil-ness.",
-		Added:       "Also (R4) the stored bytes are the encoding of the raft.Log itself, batches are per call; (R2) read options see range deletions; (R7) native slices copied in full. Third round: (R4) StoreLog(s) writes every log it was given on every path; no write bypasses the write-ahead log.",
+		Added:       "Also (R4) the stored bytes are the encoding of the raft.Log itself, batches are per call; (R2) read options see range deletions; (R7) native slices copied in full. Third round: (R4) StoreLog(s) writes every log it was given on every path; no write bypasses the write-ahead log. Fifth round: a decoded log entry never shares memory with a recycled decoding target.",
 		Assumptions: []string{"the rocksdb cgo wrapper returns nil exactly for absent keys (its bodies cannot be analysed in this sandbox)"},
 		Declined:    "behaviour against a map model over all sequences; survival across reopen (RocksDB).",
 	}, runC15)
